@@ -87,3 +87,66 @@ Qed.
 Corollary parse_expression_column_range text msg c :
   parse_expression text = EErr msg c -> 1 <= c <= length text + 1.
 Proof. intros H. apply parse_expression_column in H. destruct H as (n & H1 & H2). lia. Qed.
+
+(* the only host exception the expression parser model can report is float() rejecting the text
+   of a matched number literal *)
+Definition host_post {A} (r : pres A) : Prop := match r with PHost w => w = U "ValueError" | _ => True end.
+
+Lemma parser_host : forall fuel,
+  (forall text left, host_post (parse_binary fuel text left)) /\
+  (forall text, host_post (parse_unary fuel text)) /\
+  (forall text acc, host_post (parse_args fuel text acc)).
+Proof.
+  induction fuel as [|f (IHb & IHu & IHa)]; [repeat split; intros; exact I|].
+  split; [|split].
+  - intros text left. cbn [parse_binary].
+    assert (Hleft : host_post (match left with Some l => POk (l, text) | None => parse_unary f text end)).
+    { destruct left; [exact I | apply IHu]. }
+    destruct (match left with Some l => POk (l, text) | None => parse_unary f text end) as [[le bt]|msg n|w|]; cbn [host_post] in Hleft |- *; auto.
+    destruct (rx R_EXPR_BINARY_OP bt) as [|e c|]; cbn [host_post]; auto.
+    pose proof (IHu (skipn e bt)) as U1.
+    destruct (parse_unary f (skipn e bt)) as [[re nt]|msg n|w|]; cbn [host_post] in U1 |- *; auto; try apply IHb.
+  - intros text. cbn [parse_unary].
+    destruct (rx R_EXPR_GROUP_OPEN text) as [|e c|]; cbn [host_post]; auto.
+    2:{ pose proof (IHb (skipn e text) None) as B1.
+        destruct (parse_binary f (skipn e text) None) as [[ex nt]|msg n|w|]; cbn [host_post] in B1 |- *; auto.
+        destruct (rx R_EXPR_GROUP_CLOSE nt) as [|e2 c2|]; cbn [host_post]; auto. }
+    destruct (rx R_EXPR_UNARY_OP text) as [|e c|]; cbn [host_post]; auto.
+    2:{ pose proof (IHu (skipn e text)) as U1.
+        destruct (parse_unary f (skipn e text)) as [[ex nt]|msg n|w|]; cbn [host_post] in U1 |- *; auto. }
+    destruct (rx R_EXPR_FUNCTION_OPEN text) as [|e c|]; cbn [host_post]; auto.
+    2:{ pose proof (IHa (skipn e text) []) as A1.
+        destruct (parse_args f (skipn e text) []) as [[args rest]|msg n|w|]; cbn [host_post] in A1 |- *; auto. }
+    destruct (rx R_EXPR_NUMBER text) as [|e c|]; cbn [host_post]; auto.
+    2:{ destruct (py_float (grp text c 1)); cbn [host_post]; auto. }
+    destruct (rx R_EXPR_STRING text) as [|e c|]; cbn [host_post]; auto.
+    2:{ destruct (unescape R_EXPR_STRING_ESCAPE (grp text c 1)); cbn [host_post]; auto. }
+    destruct (rx R_EXPR_STRING_DOUBLE text) as [|e c|]; cbn [host_post]; auto.
+    2:{ destruct (unescape R_EXPR_STRING_DOUBLE_ESCAPE (grp text c 1)); cbn [host_post]; auto. }
+    destruct (rx R_EXPR_VARIABLE text) as [|e c|]; cbn [host_post]; auto.
+    destruct (rx R_EXPR_VARIABLE_EX text) as [|e c|]; cbn [host_post]; auto.
+    destruct (unescape R_EXPR_VARIABLE_EX_ESCAPE (grp text c 1)); cbn [host_post]; auto.
+  - intros text acc. cbn [parse_args].
+    destruct (rx R_EXPR_FUNCTION_CLOSE text) as [|e c|]; cbn [host_post]; auto.
+    assert (Hsep : host_post (match acc with
+                | [] => POk text
+                | _ :: _ => match rx R_EXPR_FUNCTION_SEPARATOR text with
+                            | MNo => PErr syntax_error (length text)
+                            | MYes e _ => POk (skipn e text)
+                            | MFuel => PFuel
+                            end
+                end)).
+    { destruct acc; [exact I|]. destruct (rx R_EXPR_FUNCTION_SEPARATOR text); exact I. }
+    destruct (match acc with [] => POk text | _ :: _ => _ end) as [t'|msg n|w|]; cbn [host_post] in Hsep |- *; auto.
+    pose proof (IHb t' None) as B1.
+    destruct (parse_binary f t' None) as [[a nt]|msg n|w|]; cbn [host_post] in B1 |- *; auto; try apply IHa.
+Qed.
+
+Theorem parse_expression_host text w : parse_expression text = EHost w -> w = U "ValueError".
+Proof.
+  unfold parse_expression. intros H.
+  destruct (parser_host (expr_fuel text)) as (Hb & _ & _). specialize (Hb text None).
+  destruct (parse_binary (expr_fuel text) text None) as [[e nt]|m n|w'|]; cbn in Hb; try discriminate.
+  - destruct (strip nt); discriminate.
+  - injection H as <-. exact Hb.
+Qed.
